@@ -202,3 +202,11 @@ impl SwarmDriver {
         }
     }
 }
+
+#[cfg(feature = "verif-hooks")]
+impl SwarmDriver {
+    /// What the driver does on an incoming `Cmd::Replicate` (minus answering the peer).
+    pub fn verif_handle_replicate(&mut self, holder: NetworkAddress, keys: Vec<(NetworkAddress, RecordType)>) {
+        self.add_keys_to_replication_fetcher(holder, keys)
+    }
+}
